@@ -621,3 +621,37 @@ def _twin_key_jobs(start_run, twin):
         jobs.append({"run": run, "scen": {"cfg": cfg, "invs": invs, "htlcs": hs, "probe": []}, "sched": s, "drain": True, "tag": "directed:twin_key"})
         run += 1
     return jobs
+
+
+# ---------------------------------------------------------------------------------------------
+# Directed schedules: the node was down for many blocks while a part of the interrupted attempt was in flight; when the
+# HTLC is replayed it has only a few blocks left (more than / exactly / fewer than the safety delta, or none).  The fate
+# of the attempt is still unknown: the HTLC stays held and is settled when the part completes (C02, C05, C08).
+def late_replay_jobs(start_run=1):
+    jobs = []
+    run = start_run
+    cfg = dict(CFG_A)
+    p = pool(cfg, 10)
+    g = p["good"][2]
+    ds = lambda key: {"kind": "ds", "hash": "h1", "key": key}
+    X = lambda sel, fault="none": {"a": "exec", "sel": sel, "fault": fault}
+    D = lambda sel: {"a": "deliver", "sel": sel}
+    lds = {"kind": "listds", "hash": "h1"}; payc = {"kind": "pay", "hash": "h1"}
+    for left in (cfg["sdelta"] + 1, cfg["sdelta"], cfg["sdelta"] - 1, 1, 0, -3):
+        for outcome in ("complete", "failed"):
+            for realblocks, age in ((False, 0), (True, 0), (False, cfg["mpp"] + 1), (True, cfg["mpp"] + 1)):
+                s = [{"a": "htlc", "i": 1}, X(lds), D(lds), X(ds("state")), D(ds("state")), X(ds("att")), D(ds("att")),
+                     X(payc), {"a": "paypart", "sel": payc}] + [{"a": "tick"}] * age + [{"a": "crash", "lose": False},
+                     {"a": "height", "h": g["exp"] - left},
+                     {"a": "htlc", "i": 1}, X(lds), D(lds),
+                     X({"kind": "lists", "hash": "h1", "status": "pending"}), D({"kind": "lists", "hash": "h1", "status": "pending"}),
+                     X({"kind": "lists", "hash": "h1", "status": "complete"}), D({"kind": "lists", "hash": "h1", "status": "complete"}),
+                     {"a": "tick"}, {"a": "partdone", "p": 1, "how": outcome, "code": 203},
+                     X({"kind": "wait", "hash": "h1", "part": 1}), D({"kind": "wait", "hash": "h1", "part": 1})]
+                j = {"run": run, "scen": {"cfg": cfg, "invs": invs_for(10), "htlcs": [g], "probe": []}, "sched": s, "drain": True,
+                     "tag": "directed:late_replay"}
+                if realblocks:
+                    j["realblocks"] = True
+                jobs.append(j)
+                run += 1
+    return jobs
